@@ -206,6 +206,11 @@ class AsyncIOClient(ABC):
                     if self.seed_network_map:
                         asyncio.create_task(self._seed_network_map())
 
+            if self._state == State.DISCONNECTED:
+                # A fault was reported while this connect() was finishing (status callback, cancel wait):
+                # the handler's own connect() found the lock taken and returned, so ask again.
+                asyncio.create_task(self.connect())
+
     async def _seed_network_map(self):
         # To seed the network map we will send request for 3 PGNS: 60928, 126996, 126998 
         await asyncio.sleep(2)
